@@ -1229,22 +1229,34 @@ theorem dceU_removed_not_read (t : US) (r : List US) (live : List Nat) (x : Nat)
   simp at this
   exact this hin
 
-/-- the `While` arm: a loop variable that is dropped is read by no statement of the body, in no
-position (callee included), and by no initial or loop value -/
-theorem dropped_loop_var_unused (lvs : List (Nat × Operand × Operand)) (body : List US) (v : Nat)
-    (hv : v ∈ lvs.map (·.1)) (hdrop : v ∉ keptLoopVars true lvs body) :
-    (∀ s, s ∈ body → v ∉ s.uses true) ∧ (∀ lv, lv ∈ lvs → v ∉ lv.2.1.vars ∧ v ∉ lv.2.2.vars) := by
-  simp only [keptLoopVars, List.mem_filter, not_and] at hdrop
-  have hnot := hdrop hv
-  simp only [List.contains_iff_mem, List.mem_append, List.mem_flatMap, not_or, not_exists, not_and] at hnot
-  exact ⟨fun s hs hu => hnot.2 s hs hu, fun lv hlv => hnot.1 lv hlv⟩
+/-- the `While` arm: a loop variable that is dropped is read by no statement that stays in the body —
+in no position, the callee included — and by no loop value of a variable that stays a candidate -/
+theorem dropped_loop_var_unused (lvs : List (Nat × Operand × Operand)) (body : List US) (after : List Nat) (v : Nat)
+    (hv : v ∈ (loopVarsStage1 true lvs body).map (·.1)) (hdrop : v ∉ keptLoopVars true lvs body after) :
+    (∀ s, s ∈ (loopBodyDce true lvs body after).1 → v ∉ s.uses true) ∧
+    (∀ lv, lv ∈ loopVarsStage1 true lvs body → v ∉ lv.2.2.vars) := by
+  obtain ⟨lv0, hlv0, rfl⟩ := List.mem_map.mp hv
+  have hnl : lv0.1 ∉ (loopBodyDce true lvs body after).2 := by
+    intro hin
+    apply hdrop
+    simp only [keptLoopVars, List.mem_map, List.mem_filter]
+    exact ⟨lv0, ⟨hlv0, by simpa using hin⟩, rfl⟩
+  constructor
+  · intro s hs hu
+    exact hnl (dceU_kept_uses_live body _ s hs _ hu)
+  · intro lv hlv hu
+    apply hnl
+    apply dceU_live_mono
+    apply List.mem_append_right
+    exact List.mem_flatMap.mpr ⟨lv, hlv, hu⟩
 
 /-- The callee clause is necessary (seeded-fault class C02f): without it a loop variable that holds a
 closure and is only CALLED in the body is dropped although the call that stays reads it. -/
 theorem callee_must_count_as_use :
     let lvs : List (Nat × Operand × Operand) := [(1, .var 9, .var 3)]
     let body : List US := [.call (some 1) [.var 2] (some 4), .clo 3 (.var 4)]
-    keptLoopVars false lvs body = [] ∧ keptLoopVars true lvs body = [1] ∧
+    keptLoopVars false lvs body [] = [] ∧ keptLoopVars true lvs body [] = [1] ∧
+    (US.call (some 1) [.var 2] (some 4)) ∈ (loopBodyDce false lvs body []).1 ∧
     1 ∈ (US.call (some 1) [.var 2] (some 4)).uses true := by decide
 
 /-! ## 10. Common-subexpression elimination never hoists a trap above an effect -/
